@@ -49,7 +49,8 @@ ApplyCond == /\ Rich /\ Len(stack) >= 3 /\ S(0).w = S(1).w
 ApplyCompose == /\ Rich /\ Len(stack) >= 2 /\ S(0).w + S(1).w \in Ws
                 /\ Replace(2, ComposeNode(S(1), S(0)))
 ApplyMem == /\ Rich /\ Len(stack) >= 1 /\ S(0).w = 32
-            /\ \E w \in Ws \ {1} : Replace(1, MemNode(w, S(0)))
+            /\ \E w \in Ws \ {1} : \E sg \in {<<>>, <<[k |-> "id", w |-> 16, n |-> "sg16"]>>} :
+                  Replace(1, [MemNode(w, S(0)) EXCEPT !.g = sg])
 \* a forest of n trees still needs n - 1 joining nodes
 Feasible == nodes + (IF Rich THEN Len(stack) \div 2 ELSE Len(stack) - 1) <= MaxNodes
 Next == (PushInt \/ PushId \/ ApplyUn \/ ApplyBin \/ ApplyTern \/ ApplySlice \/ ApplyCond \/ ApplyCompose \/ ApplyMem) /\ Feasible'
